@@ -32,6 +32,16 @@ const (
 	Alice         = "WNWk3ekXeM5M2232dY2uCJmEqWhfQiDYT"
 )
 
+// StateEngine, when set, is the kvdb engine the state machine is opened with (demos of
+// storage faults register a wrapping engine and set this before calling New).
+var StateEngine string
+
+// LedgerEngine, when set, is the kvdb engine the ledger is opened with.
+var LedgerEngine string
+
+// GenesisExtra is spliced into the ledger's genesis configuration (e.g. a slide window).
+var GenesisExtra string
+
 var genesisConf = []byte(`{"version":"1","predistribution":[{"address":"dpzuVdosQrF2kmzumhVeFQZa1aYcdgFpN","quota":"100"}],"maxblocksize":"16","award":"1000000","decimals":"8","award_decay":{"height_gap":31536000,"ratio":1},"gas_price":{"cpu_rate":1000,"mem_rate":1000000,"disk_rate":1,"xfee_rate":1},"new_account_resource_amount":1000,"genesis_consensus":{"name":"single","config":{"miner":"dpzuVdosQrF2kmzumhVeFQZa1aYcdgFpN","period":3000}}}`)
 
 func Must(err error) {
@@ -62,7 +72,14 @@ func New(withState bool, edit func(root *pb.Transaction)) *Env {
 	lctx, err := ledger_pkg.NewLedgerCtx(econf, "xuper")
 	Must(err)
 	lctx.EnvCfg.ChainDir = e.Dir
-	e.Ledger, err = ledger_pkg.CreateLedger(lctx, genesisConf)
+	if LedgerEngine != "" {
+		lctx.LedgerCfg.KVEngineType = LedgerEngine
+	}
+	gc := genesisConf
+	if GenesisExtra != "" {
+		gc = append([]byte(`{`+GenesisExtra+`,`), genesisConf[1:]...)
+	}
+	e.Ledger, err = ledger_pkg.CreateLedger(lctx, gc)
 	Must(err)
 	e.RootTx, err = txn.GenerateRootTx([]byte(`{"version":"1","consensus":{"miner":"0x0"},"predistribution":[{"address":"` + Bob + `","quota":"10000000"},{"address":"` + Alice + `","quota":"20000000"}],"maxblocksize":"128","period":"5000","award":"1000000"}`))
 	Must(err)
@@ -84,6 +101,9 @@ func New(withState bool, edit func(root *pb.Transaction)) *Env {
 		sctx, err := context.NewStateCtx(econf, "xuper", e.Ledger, e.Crypt)
 		Must(err)
 		sctx.EnvCfg.ChainDir = e.Dir
+		if StateEngine != "" {
+			sctx.LedgerCfg.KVEngineType = StateEngine
+		}
 		e.State, err = state.NewState(sctx)
 		Must(err)
 		Must(e.State.Play(e.Root.Blockid))
